@@ -6,6 +6,8 @@ import hashlib
 import os
 import tempfile
 
+import warnings
+
 import numpy as np
 import pandas as pd
 import torch
@@ -44,6 +46,10 @@ PERSO = ["scipy_minimize", "mean_posterior", "mode_posterior"]
 def make_plan(seed: int, tier: str) -> dict:
     rng = SimRng(seed)
     st = rng.stream("plan")
+    if st.bernoulli(0.06):
+        # the benchmark LME model ("personalize (all algorithms)", "a model object of any kind"): caller-owned inputs of each accepted type
+        return {"seed": seed, "tier": tier, "engine": "apisim_c13", "type": "lme", "n": st.randint(6, 12), "visits": st.randint(3, 6), "slope": st.bernoulli(0.5),
+                "input": st.choice(["dataset", "dataset", "data", "dataframe"]), "missing": st.bernoulli(0.3), "gseed": st.u64() & 0xFFFFFFFF, "calls": st.randint(2, 3)}
     kind = st.choice(KINDS)
     info = workload.kind_info(kind)
     nf = 1 if info["uni"] else st.choice([2, 3])
@@ -149,6 +155,74 @@ def _model_transient(model):
     return {nm: ac.clone_value(s._values.get(nm)) for nm in names}
 
 
+def run_lme(plan, out, log):
+    from leaspy.io.data import Data, Dataset
+    from leaspy.models import LMEModel
+
+    C = out["counters"]
+    C["type.lme"] += 1
+    st = Stream(plan["gseed"], "lme")
+    rows = []
+    for i in range(plan["n"]):
+        t0 = 60 + 10 * st.random()
+        b = 0.5 * st.normal()
+        for k_ in range(plan["visits"]):
+            t = round(t0 + k_ * (0.8 + 0.4 * st.random()), 3)
+            rows.append((f"s{i}", t, round(0.2 + b + 0.05 * (t - 65) + 0.02 * st.normal(), 5)))
+    df = pd.DataFrame(rows, columns=["ID", "TIME", "Y"])
+    try:
+        with ac.quiet():
+            model = LMEModel("lme", with_random_slope_age=plan["slope"])
+            model.fit(Data.from_dataframe(df), "lme_fit")
+    except Exception as e:
+        out["discarded"] = f"setup:{type(e).__name__}"
+        return
+    ids = [f"s{i}" for i in range(min(3, plan["n"]))]
+    new = df[df.ID.isin(ids)].reset_index(drop=True)
+    if plan["missing"]:
+        new.loc[new.index[1], "Y"] = np.nan
+    inp = {"dataframe": new, "data": Data.from_dataframe(new), "dataset": Dataset(Data.from_dataframe(new))}[plan["input"]]
+
+    def snap():
+        if plan["input"] == "dataframe":
+            return inp.copy(deep=True)
+        if plan["input"] == "dataset":
+            return {k_: getattr(inp, k_).clone() for k_ in ("timepoints", "values", "mask")}
+        return inp.to_dataframe().copy(deep=True)
+
+    def same_input(a):
+        b = snap()
+        if isinstance(a, dict):
+            return all(torch.equal(a[k_], b[k_]) for k_ in a)
+        return a.equals(b) and list(a.dtypes) == list(b.dtypes)
+
+    params_before = copy.deepcopy(model.parameters)
+    results = []
+    for ci in range(plan["calls"]):
+        before = snap()
+        try:
+            with ac.quiet():
+                ip = model.personalize(inp, "lme_personalize")
+        except Exception as e:
+            violation(out, "call_completes", f"call_raised:personalize:lme_personalize:{type(e).__name__}", f"call {ci}: {e}")
+            return
+        C["probe.lme_call"] += 1
+        if not same_input(before):
+            violation(out, "inputs_untouched", f"input_modified:{plan['input']}:personalize:lme_personalize", f"call {ci}: the caller's {plan['input']} changed")
+            return
+        d_ = ip._individual_parameters     # (IndividualParameters.to_dataframe() fails on scalar-shaped entries: C16 territory)
+        results.append(hashlib.sha1(repr([(i_, sorted((k_, np.round(np.atleast_1d(np.asarray(v_, dtype=np.float64)), 12).tolist()) for k_, v_ in d_[i_].items()))
+                                          for i_ in ip._indices]).encode()).hexdigest()[:16])
+        log.add("lme", ci, results[-1])
+    if len(set(results)) > 1:
+        violation(out, "history_independence", "repeated_call_differs:personalize:lme_personalize", f"{results}")
+    if str(params_before) != str(model.parameters):
+        violation(out, "model_untouched", "model_core_changed:personalize:lme_personalize", "LME parameters changed")
+    out["keys"].add("run:" + hashlib.sha1(repr(("lme", plan["n"], plan["visits"], plan["slope"], plan["input"], plan["missing"])).encode()).hexdigest()[:16])
+    out["nontrivial"] = True
+    out["sample"] = {k_: v for k_, v in plan.items() if k_ not in ("seed", "tier", "engine", "gseed")}
+
+
 def run_plan(plan: dict) -> dict:
     from leaspy.algo import AlgorithmSettings
     from leaspy.models import BaseModel
@@ -157,6 +231,12 @@ def run_plan(plan: dict) -> dict:
     log = EventLog()
     torch.set_num_threads(1)
     C = out["counters"]
+    if plan.get("type") == "lme":
+        with warnings.catch_warnings():
+            warnings.simplefilter("ignore")
+            run_lme(plan, out, log)
+        out["digest"] = log.digest()
+        return out
     kind, nf = plan["kind"], plan["nf"]
     info = workload.kind_info(kind)
     try:
@@ -391,6 +471,14 @@ def run_plan(plan: dict) -> dict:
 
 
 def shrink(plan: dict):
+    if plan.get("type") == "lme":
+        for key, vals in (("calls", [2]), ("n", [6]), ("visits", [3]), ("missing", [False]), ("slope", [False])):
+            for v_ in vals:
+                if plan[key] != v_:
+                    p = dict(plan)
+                    p[key] = v_
+                    yield p
+        return
     for cand in ddmin_list(plan["ops"]):
         if cand:
             p = dict(plan)
